@@ -22,6 +22,9 @@ def rawTE (cur : Str) : TE → Str
   | .array n e => ['['] ++ natStr n ++ [']'] ++ rawTE cur e
   | .empty => s "struct{}"
 
+/-- the receiver of a method call in `doPointer`: through the pointee for a defined pointer type -/
+def recvText (dp : Bool) : Str := if dp then s "(**in)" else s "(*in)"
+
 /-- `m` is the member name for the per-field shapes -/
 def render (cur : Str) (m : Str) : Code → Str
   | .fatal => s "FATAL"
@@ -57,11 +60,11 @@ def render (cur : Str) (m : Str) : Code → Str
   | .aeIface n => s "if *in != nil { *out = (*in).DeepCopy" ++ n ++ s "() }"
   | .aeRef p => s "if *in != nil {" ++ render cur m p ++ s "}"
   | .aeNested p => s "for i := range *in { in, out := &(*in)[i], &(*out)[i]" ++ render cur m p ++ s "}"
-  | .ptrDcPtr => s "*out = (*in).DeepCopy()"
-  | .ptrDcVal => s "x := (*in).DeepCopy() *out = &x"
+  | .ptrDcPtr dp => s "*out = " ++ recvText dp ++ s ".DeepCopy()"
+  | .ptrDcVal dp => s "x := " ++ recvText dp ++ s ".DeepCopy() *out = &x"
   | .ptrNewAssign raw => s "*out = new(" ++ rawTE cur raw ++ s ") **out = **in"
   | .ptrRef raw p => s "*out = new(" ++ rawTE cur raw ++ s ") if **in != nil { in, out := *in, *out" ++ render cur m p ++ s "}"
-  | .ptrStruct raw => s "*out = new(" ++ rawTE cur raw ++ s ") (*in).DeepCopyInto(*out)"
+  | .ptrStruct dp raw => s "*out = new(" ++ rawTE cur raw ++ s ") " ++ recvText dp ++ s ".DeepCopyInto(*out)"
 
 /-- `GenerateType`: the text of method `meth` ("DeepCopyInto", "DeepCopy", "DeepCopy<Iface>") of declared type `d` -/
 def methodText (env : Env) (f : Nat) (d : Decl) (meth : Str) : Str :=
